@@ -196,13 +196,40 @@ def tr_config(run):
     tables = {}
     for fn, var, adj in (("snoopy_util_syslog_convertFacilityToInt", "facilityStr", "facilityStrAdj"), ("snoopy_util_syslog_convertLevelToInt", "levelStr", "levelStrAdj")):
         b = func_body(sy, fn) or ""
-        m = re.search(r"if\s*\(\s*0\s*==\s*strncmp\s*\(\s*%s\s*,\s*%s\s*,\s*(\d+)\s*\)\s*\)\s*\{\s*%s\s*=\s*&\s*%s\s*\[\s*(\d+)\s*\]\s*;" % (var, STR, adj, var), b)
-        if m and len(c_unescape(m.group(1))) == int(m.group(2)) == int(m.group(3)):
-            util_pref.append(c_unescape(m.group(1)))
-        elif "strncmp" in b or "[3]" in b or "[4]" in b:
-            util_pref.append(None)           # some prefix handling that is not the recognised one
-        else:
+        # the optional prefix is skipped in place, or through a file-local static helper, or not at all
+        def skip_(txt, src_, assign_):
+            """txt holds `if (0 == strncmp(src, "LIT", N)) { <assign_ % '&src[N]' or 'src + N'> }`: return LIT or None"""
+            m_ = re.search(r"if\s*\(\s*(?:0\s*==\s*strncmp\s*\(\s*%s\s*,\s*%s\s*,\s*(\d+)\s*\)|strncmp\s*\(\s*%s\s*,\s*%s\s*,\s*(\d+)\s*\)\s*==\s*0)\s*\)\s*\{\s*%s\s*\}"
+                           % (src_, STR, src_, STR, assign_ % (r"(?:&\s*%s\s*\[\s*(\d+)\s*\]|%s\s*\+\s*(\d+))" % (src_, src_))), txt)
+            if not m_:
+                return None
+            lit = c_unescape(m_.group(1) if m_.group(1) is not None else m_.group(3))
+            n1 = int(m_.group(2) or m_.group(4))
+            n2 = int(m_.group(5) or m_.group(6))
+            return lit if len(lit) == n1 == n2 and len(re.findall(r"strncmp\s*\(", txt)) == 1 else None
+        mh_ = re.search(r"\b%s\s*=\s*(\w+)\s*\(\s*%s\s*\)\s*;" % (adj, var), b)
+        if mh_ and not re.search(r"strncmp\s*\(", b):
+            hname = mh_.group(1)
+            hm = re.search(r"\bstatic\s+(?:const\s+)?char\s*(?:const\s*)?\*\s*%s\s*\(\s*(?:const\s+)?char\s*(?:const\s*)?\*\s*(?:const\s+)?(\w+)\s*\)\s*\{" % hname, sy)
+            hb_ = func_body(sy, hname) if hm else None
+            lit = None
+            if hb_ is not None:
+                prm = hm.group(1)
+                lit = skip_(hb_, prm, r"return\s+%s\s*;")
+                if lit is not None and not (re.search(r"\}\s*return\s+%s\s*;\s*$" % prm, hb_.strip()) and len(re.findall(r"\breturn\b", hb_)) == 2):
+                    lit = None
+            util_pref.append(lit)
+            if lit is None:
+                note("%s: prefix helper %s not recognised" % (fn, hname))
+        elif re.search(r"strncmp\s*\(", b):
+            lit = skip_(b, var, r"%s\s*=\s*%%s\s*;" % adj)
+            if lit is not None and not re.search(r"\b%s\s*=\s*%s\s*;" % (adj, var), b):
+                lit = None
+            util_pref.append(lit)
+        elif re.search(r"\b%s\s*=\s*%s\s*;" % (adj, var), b) and "[3]" not in b and "[4]" not in b:
             util_pref.append(b"")
+        else:
+            util_pref.append(None)           # some prefix handling that is not a recognised one
         ladder = re.findall(r"(?:if|else\s+if)\s*\(\s*strcmp\s*\(\s*%s\s*,\s*%s\s*\)\s*==\s*0\s*\)\s*\{\s*\w+\s*=\s*(LOG_[A-Z0-9]+)\s*;\s*\}" % (adj, STR), b)
         m = re.search(r"else\s*\{\s*\w+Int\s*=\s*([^;]+);\s*\}\s*return\s+\w+Int\s*;", b)
         tail = m.group(1).strip() if m else None
